@@ -188,7 +188,15 @@ func runSolver(ctx context.Context, name string, file string, timeout time.Durat
 	t0 := time.Now()
 	_ = cmd.Run()
 	r := solverRun{name: name, out: out.String(), secs: time.Since(t0).Seconds()}
-	first := strings.TrimSpace(strings.SplitN(r.out, "\n", 2)[0])
+	first := ""
+	for _, ln := range strings.Split(r.out, "\n") {
+		ln = strings.TrimSpace(ln)
+		if ln == "" || strings.HasPrefix(ln, "WARNING") {
+			continue // e.g. z3's "'if' cannot be used in patterns" (the pattern is then ignored)
+		}
+		first = ln
+		break
+	}
 	switch {
 	case first == "unsat":
 		r.status = "unsat"
